@@ -80,8 +80,32 @@ class _FloatType:
         return hash(self.real)
 
 
+class _IntType:
+    """np.int32(x) / np.int64(x): truncation towards zero; on symbolic values an Ackermannised truncation (core.sv_trunc)"""
+
+    def __init__(self, real):
+        self.real = real
+        self.__name__ = real.__name__
+
+    def __call__(self, x=0):
+        if isinstance(x, SV):
+            return core.sv_trunc(x)
+        if isinstance(x, SymArray):
+            out = _np.empty(x.a.shape, dtype=object)
+            for idx in _np.ndindex(*x.a.shape):
+                out[idx] = core.sv_trunc(SV.of(x.a[idx]))
+            return SymArray(out, "int")
+        return self.real(x)
+
+    def __eq__(self, o):
+        return o is self or o is self.real
+
+    def __hash__(self):
+        return hash(self.real)
+
+
 def _real_dtype(d):
-    return d.real if isinstance(d, _FloatType) else d
+    return d.real if isinstance(d, (_FloatType, _IntType)) else d
 
 
 class _Random:
@@ -194,6 +218,8 @@ class _NP(types.ModuleType):
         self.float64 = _FloatType(_np.float64)
         self.float32 = _FloatType(_np.float32)
         self.single = self.float32
+        self.int32 = _IntType(_np.int32)
+        self.int64 = _IntType(_np.int64)
         self.double = self.float64
         self.nditer = _NdIter
         self.ndarray = (_np.ndarray, SymArray)
@@ -431,7 +457,7 @@ class _NP(types.ModuleType):
     def _kind(dtype, default="float"):
         if dtype is None:
             return default
-        if dtype in (int, _np.int64, _np.int32, "int"):
+        if dtype in (int, _np.int64, _np.int32, "int") or isinstance(dtype, _IntType):
             return "int"
         if dtype in (bool, _np.bool_):
             return "bool"
@@ -676,6 +702,74 @@ class _NP(types.ModuleType):
                 flat[i] = v[i % v.size]
 
     @staticmethod
+    def place(arr, mask, vals):
+        """np.place(arr, mask, vals): the k-th True position of mask gets vals[k % len(vals)] (values are consumed
+        sequentially, NOT by position)"""
+        a = as_sym(arr)
+        m = _np.asarray(as_sym(mask)).reshape(-1)  # forks on a symbolic mask
+        v = to_obj(vals).reshape(-1)
+        if a.tag is not None:
+            ctx().events.append(("mutate-input", a.tag, core._where()))
+        flat = a.a.reshape(-1)
+        k = 0
+        for i in range(flat.size):
+            if m[i]:
+                if v.size == 0:
+                    raise ValueError("Cannot insert from an empty array!")
+                flat[i] = v[k % v.size]
+                k += 1
+
+    @staticmethod
+    def isclose(a, b, rtol=1e-05, atol=1e-08, equal_nan=False):
+        """|a - b| <= atol + rtol * |b| (elementwise, as NumPy defines it: asymmetric in a and b)"""
+        a, b = as_sym(a), as_sym(b)
+        return NP.abs(a - b) <= (SV.of(atol) + SV.of(rtol) * NP.abs(b))
+
+    @staticmethod
+    def digitize(x, bins, right=False):
+        """np.digitize for concrete monotonic bins (increasing or decreasing), NumPy's interval conventions"""
+        bs = as_sym(bins)
+        if bs.ndim != 1:
+            raise Unsupported("digitize: bins must be 1-D")
+        bl = [SV.of(e) for e in bs.a]
+        if any(e.t is not None for e in bl):
+            raise Unsupported("digitize with symbolic bins")
+        vals = [e.c for e in bl]
+        inc = all(vals[i] <= vals[i + 1] for i in range(len(vals) - 1))
+        dec = all(vals[i] >= vals[i + 1] for i in range(len(vals) - 1))
+        if not (inc or dec):
+            raise ValueError("bins must be monotonically increasing or decreasing")
+
+        def one(xe):
+            xe = SV.of(xe)
+            n = 0
+            for e in bl:
+                if inc:
+                    c = (e < xe) if right else (e <= xe)
+                else:
+                    c = (e >= xe) if right else (e > xe)
+                if bool(c):
+                    n += 1
+            return n
+
+        if isinstance(x, (SymArray, _np.ndarray, list, tuple)):
+            xx = as_sym(x)
+            out = _np.empty(xx.shape, dtype=int)
+            for idx in _np.ndindex(*xx.shape):
+                out[idx] = one(xx.a[idx])
+            return out
+        return one(x)
+
+    @staticmethod
+    def take(a, indices, axis=None, **k):
+        a = as_sym(a)
+        idx = _np.asarray(indices)
+        if axis is None:
+            return SymArray(a.a.reshape(-1)[idx], a.kind) if idx.ndim else a.a.reshape(-1)[int(idx)]
+        r = _np.take(a.a, idx, axis=axis)
+        return SymArray(r, a.kind) if isinstance(r, _np.ndarray) else r
+
+    @staticmethod
     def array_equal(a, b, **k):
         a, b = as_sym(a), as_sym(b)
         if a.shape != b.shape:
@@ -714,3 +808,17 @@ class _Outer:
 NP.subtract = _Outer(lambda a, b: SV.of(a) - SV.of(b))
 NP.multiply = _Outer(lambda a, b: SV.of(a) * SV.of(b))
 NP.add = _Outer(lambda a, b: SV.of(a) + SV.of(b))
+
+
+def _np_outer(a, b, **k):
+    """np.outer: flattened operands, products"""
+    a, b = as_sym(a), as_sym(b)
+    return NP.multiply.outer(SymArray(a.a.reshape(-1), a.kind), SymArray(b.a.reshape(-1), b.kind))
+
+
+NP.outer = _np_outer
+
+
+NP.flatnonzero = lambda a: _np.flatnonzero(_np.asarray(as_sym(a)))  # forks on a symbolic mask; concrete indices
+NP.nonzero = lambda a: _np.nonzero(_np.asarray(as_sym(a)))
+NP.argwhere = lambda a: _np.argwhere(_np.asarray(as_sym(a)))
